@@ -16,6 +16,11 @@ Blk4b == << <<1, 4>>, <<2>> >>
 Ins5 == <<{1}, {2}, {2, 3}, {3}, {1, 2}>>
 Rel5 == <<TRUE, TRUE, TRUE, TRUE, TRUE>>
 Blk5 == << <<4>> >>
+\* parents and children: output 51 is "output 0 of transaction 1" (the node can resolve it from its own records once it holds 1):
+\* 2 spends outpoint 2 and 1's output, 3 spends 1's output (conflicts with 2), 4 spends outpoint 2 (conflicts with 2)
+InsP == <<{1}, {2, 51}, {51}, {2}>>
+RelP == <<TRUE, TRUE, TRUE, TRUE>>
+BlkP == << <<1>>, <<3>> >>
 SrcTT == {"TT"}
 Src5 == {"TT", "UT", "LOC", "TX", "UX"}
 SrcAll == {"TT", "UT", "LOC", "TX", "UX", "NU", "NX"}
